@@ -3,7 +3,9 @@ package histlib
 import (
 	"context"
 	"database/sql"
+	"errors"
 	"fmt"
+	"io"
 	"os"
 	"path/filepath"
 	"sort"
@@ -189,7 +191,7 @@ func (e *Env) exec(op Op, ack *bool) error {
 			}
 		}
 		var a, b, c int
-		return e.App.QueryRow("PRAGMA wal_checkpoint(" + op.S + ")").Scan(&a, &b, &c)
+		return e.App.QueryRow("PRAGMA wal_checkpoint("+op.S+")").Scan(&a, &b, &c)
 	case "aclose":
 		e.endReader()
 		if e.App != nil {
@@ -261,6 +263,19 @@ func (e *Env) exec(op Op, ack *bool) error {
 			return err
 		}
 		_, err = db.Snapshot(ctx)
+		return err
+	case "snapfail": // replica fault: the upload of one snapshot breaks after A bytes (full disk, dropped connection)
+		db, err := e.ls()
+		if err != nil {
+			return err
+		}
+		orig := db.Replica.Client
+		db.Replica.Client = &failSnapClient{ReplicaClient: orig, n: int64(op.A)}
+		_, err = db.Snapshot(ctx)
+		db.Replica.Client = orig
+		if err == nil || errors.Is(err, errSnapUpload) || strings.Contains(err.Error(), errSnapUpload.Error()) {
+			return nil // the fault (or nothing to upload) — not an outcome to judge
+		}
 		return err
 	case "compact":
 		db, err := e.ls()
@@ -567,3 +582,19 @@ func (e *Env) endReader() {
 
 // Up reports whether litestream is attached.
 func (e *Env) Up() bool { return e.LS != nil }
+
+var errSnapUpload = errors.New("verif: injected snapshot upload fault")
+
+// failSnapClient fails the upload of a snapshot-level file after reading n bytes of it.
+type failSnapClient struct {
+	litestream.ReplicaClient
+	n int64
+}
+
+func (c *failSnapClient) WriteLTXFile(ctx context.Context, level int, minTXID, maxTXID ltx.TXID, rd io.Reader) (*ltx.FileInfo, error) {
+	if level != litestream.SnapshotLevel {
+		return c.ReplicaClient.WriteLTXFile(ctx, level, minTXID, maxTXID, rd)
+	}
+	_, _ = io.CopyN(io.Discard, rd, c.n)
+	return nil, errSnapUpload
+}
